@@ -1168,6 +1168,10 @@ def call_builtin(interp, name, args, kwargs):
             except Raised:
                 return Const(False)
         raise Unmodelled('hasattr with non-constant name')
+    if name in ('logging.getLogger', 'logging.Logger.getChild'):
+        return Builtin('logging.Logger')        # its methods are logging.Logger.<name>: value-wise no-ops
+    if name in ('logging.Logger.isEnabledFor', 'logging.Logger.getEffectiveLevel', 'logging.Logger.hasHandlers'):
+        return Const(bool(interp.decide('logging is configured to emit this', [False, True])))
     if name == 'print' or name.startswith('traceback.') or name.startswith('logging.'):
         return Const(None)
     if name == 'callable':
